@@ -165,6 +165,17 @@ impl Schedule {
         &self,
         transitions: HashMap<VehicleTypeIdx, Transition>,
     ) -> Self {
+        #[cfg(rssched_verif)]
+        if crate::verif::call_enter() {
+            let _guard = crate::verif::CallGuard;
+            let args = serde_json::json!({"x": self.network.vehicle_types().iter().filter(|vt| transitions.contains_key(vt)).map(|vt| {
+                serde_json::json!({"ty": crate::verif::type_id(self, vt),
+                    "cyc": transitions[&vt].cycles_iter().map(|c| c.iter().map(|v| v.to_string()).collect::<Vec<_>>()).collect::<Vec<_>>()})
+            }).collect::<Vec<_>>()});
+            let result = self.set_next_day_transitions(transitions);
+            crate::verif::call_exit("set_next_day_transitions", args, self, Ok((&result, serde_json::json!({}))));
+            return result;
+        }
         let mut new_schedule = self.clone();
         new_schedule.maintenance_violation = transitions
             .values()
